@@ -35,6 +35,8 @@ type Op struct {
 	Ill string `json:"ill,omitempty"`
 	// Sub holds nested ops (e.g. attempts made while a query is open).
 	Sub []Op `json:"sub,omitempty"`
+	// Sub2 holds the op during which a lock is held (lockDuring).
+	Sub2 []Op `json:"sub2,omitempty"`
 	// GC forces a garbage collection before the op (C13).
 	GC bool `json:"gc,omitempty"`
 }
@@ -76,6 +78,9 @@ const (
 	OpResAdd      = "resAdd"       // Resources.Add
 	OpResRemove   = "resRemove"    // Resources.Remove
 	OpDumpLoad    = "dumpLoad"     // DumpEntities + LoadEntities (C17 drives this itself)
+	OpDeadRead    = "deadRead"     // read accessor with a dead handle (V selects it): must panic
+	OpCacheIll    = "cacheIll"     // V=0 register a registered filter, V=1 unregister twice
+	OpTypeLimit   = "typeLimit"    // register component types up to the limit, then one more
 	OpSetListener = "setListener"  // SetListener (V selects the configuration)
 )
 
@@ -105,7 +110,19 @@ func (o *Op) Describe() string {
 		s += fmt.Sprintf("(#%d c=%d tok=%v v=%d)", o.E, o.C, o.Tok, o.V)
 	case OpRelSet:
 		s += fmt.Sprintf("(#%d c=%d t=%d)", o.E, o.C, o.T)
-	case OpReset, OpGC:
+	case OpLockEpisode, OpLockDuring, OpLockLimit:
+		s += fmt.Sprintf(" n=%d v=%d attempts=%d script=%v", o.N, o.V, len(o.Sub), o.Script)
+		if o.F != nil {
+			s += "[" + o.F.String() + "]"
+		}
+		for i := range o.Sub2 {
+			s += " during{" + o.Sub2[i].Describe() + "}"
+		}
+	case OpReset, OpGC, OpDumpLoad, OpTypeLimit, OpRegisterNew, OpLoadEnts:
+	case OpResAdd, OpResRemove:
+		s += fmt.Sprintf("(res %d)", o.C)
+	case OpDeadRead, OpCacheIll:
+		s += fmt.Sprintf("(#%d slot=%d v=%d)", o.E, o.Slot, o.V)
 	default:
 		if o.F != nil {
 			s += "[" + o.F.String() + "]"
